@@ -383,4 +383,80 @@ pub const HANGUL_SHAPER: hb_ot_shaper_t = hb_ot_shaper_t {
 #[allow(unused_imports, dead_code, missing_docs)]
 pub mod verif_hooks {
     use super::*;
+
+    /// `[L_BASE, V_BASE, T_BASE, L_COUNT, V_COUNT, T_COUNT, N_COUNT, S_COUNT, S_BASE]` as compiled.
+    pub fn constants() -> [u32; 9] {
+        [
+            L_BASE, V_BASE, T_BASE, L_COUNT, V_COUNT, T_COUNT, N_COUNT, S_COUNT, S_BASE,
+        ]
+    }
+
+    /// `[LJMO, VJMO, TJMO]` values of the per-glyph shaping feature.
+    pub fn feature_ids() -> [u8; 3] {
+        [LJMO, VJMO, TJMO]
+    }
+
+    /// Bit i set iff predicate i holds for `u`:
+    /// 0 is_combining_l, 1 is_combining_v, 2 is_combining_t, 3 is_combined_s,
+    /// 4 is_l, 5 is_v, 6 is_t, 7 is_hangul_tone.
+    pub fn predicates(u: u32) -> u32 {
+        (is_combining_l(u) as u32)
+            | (is_combining_v(u) as u32) << 1
+            | (is_combining_t(u) as u32) << 2
+            | (is_combined_s(u) as u32) << 3
+            | (is_l(u) as u32) << 4
+            | (is_v(u) as u32) << 5
+            | (is_t(u) as u32) << 6
+            | (is_hangul_tone(u) as u32) << 7
+    }
+
+    /// `face.has_glyph(c)` and `is_zero_width_char(face, c)` as the shaper sees them.
+    pub fn font_support(face: &hb_font_t, c: u32) -> (bool, bool) {
+        let z = match char::from_u32(c) {
+            Some(ch) => is_zero_width_char(face, ch),
+            None => false,
+        };
+        (face.has_glyph(c), z)
+    }
+
+    /// Runs `preprocess_text_hangul` on a bare buffer holding `text` = (code point, cluster) pairs.
+    /// Returns (code point, cluster, hangul_shaping_feature, mask) for every glyph of the result.
+    pub fn preprocess(
+        face: &hb_font_t,
+        cluster_level: u32,
+        flags: BufferFlags,
+        text: &[(char, u32)],
+    ) -> alloc::vec::Vec<(u32, u32, u8, u32)> {
+        let mut ub = UnicodeBuffer::new();
+        for (c, cl) in text {
+            ub.add(*c, *cl);
+        }
+        let mut buffer = ub.0;
+        buffer.cluster_level = cluster_level;
+        buffer.flags = flags;
+        let plan = hb_ot_shape_plan_t::new(
+            face,
+            Direction::LeftToRight,
+            Some(script::HANGUL),
+            None,
+            &[],
+        );
+        preprocess_text_hangul(&plan, face, &mut buffer);
+        buffer.info[..buffer.len]
+            .iter()
+            .map(|i| (i.glyph_id, i.cluster, i.hangul_shaping_feature(), i.mask))
+            .collect()
+    }
+
+    /// Mask bits that `setup_masks_hangul` would add for feature ids 0..3 under `plan`.
+    pub fn mask_array(face: &hb_font_t) -> [u32; 4] {
+        let plan = hb_ot_shape_plan_t::new(
+            face,
+            Direction::LeftToRight,
+            Some(script::HANGUL),
+            None,
+            &[],
+        );
+        plan.data::<hangul_shape_plan_t>().mask_array
+    }
 }
